@@ -10,6 +10,7 @@ import (
 
 	"fmt"
 	"math/big"
+	"os"
 	"sort"
 	"strings"
 
@@ -583,7 +584,7 @@ func kPredict(p kPool, kind string, x, fee *big.Int) (out []*big.Int) {
 }
 
 func kGenSlip(r *Rng, exact *big.Int) string {
-	switch r.Pick(20, 20, 15, 10, 30, 5) {
+	switch r.Pick(3, 10, 49, 4, 32, 2) {
 	case 0:
 		return "0"
 	case 1:
@@ -594,7 +595,7 @@ func kGenSlip(r *Rng, exact *big.Int) string {
 		return new(big.Int).Mod(r.BigBits(64), prec18).String()
 	case 4: // at the boundary
 		if exact != nil {
-			v := add(exact, bi(int64(r.Intn(3)-1)))
+			v := add(exact, bi(int64(r.Intn(4)-1)))
 			return v.String()
 		}
 		return "500000000000000000"
@@ -633,7 +634,7 @@ func kGenOp(r *Rng, w *kWorld, s *kSnap, trip *kTrip) kOp {
 	op := kOp{Who: r.Intn(kNUsers)}
 	// the pool: mostly an allowed one
 	var x, y int
-	switch r.Pick(45, 45, 6, 4) {
+	switch r.Pick(48, 48, 2, 2) {
 	case 0:
 		x, y = 0, 2
 	case 1:
@@ -646,6 +647,12 @@ func kGenOp(r *Rng, w *kWorld, s *kSnap, trip *kTrip) kOp {
 	}
 	p := s.pool(x, y)
 	exists := p.s.Sign() > 0
+	if exists && r.Chance(7, 10) {
+		// a caller whose funds are dust next to the reserves mostly gets "amount rounds to zero"
+		if mul(s.bal[op.Who][x], bi(1000)).Cmp(p.ra) < 0 || mul(s.bal[op.Who][y], bi(1000)).Cmp(p.rb) < 0 {
+			op.Who = 0
+		}
+	}
 	flipOrder := r.Chance(1, 2)
 	setDenoms := func(ax, ay *big.Int) {
 		if flipOrder {
@@ -663,26 +670,54 @@ func kGenOp(r *Rng, w *kWorld, s *kSnap, trip *kTrip) kOp {
 		return op
 	}
 	kind := r.Pick(30, 20, 25, 25)
-	if !exists && r.Chance(3, 4) {
+	if !exists && x != y && r.Chance(9, 10) {
 		kind = 0
+	}
+	if kind == 1 && exists && r.Chance(9, 10) {
+		any := false
+		for u := 0; u < kNUsers; u++ {
+			any = any || s.share(u, x, y).Sign() > 0
+		}
+		if !any {
+			kind = 0
+		}
+	}
+	capTo := func(v, balance *big.Int) *big.Int { // mostly stay within the caller's funds
+		if v.Cmp(balance) > 0 && balance.Sign() > 0 && r.Chance(9, 10) {
+			return new(big.Int).Quo(balance, bi(int64(1+r.Intn(4))))
+		}
+		return v
 	}
 	switch kind {
 	case 0:
 		op.Kind = "deposit"
-		ax := kAmount(r, s.bal[op.Who][x], p.ra)
+		ax := capTo(kAmount(r, s.bal[op.Who][x], p.ra), s.bal[op.Who][x])
 		var ay *big.Int
 		var exact *big.Int
-		if exists && r.Chance(7, 10) {
+		if exists && r.Chance(88, 100) {
 			// near the pool ratio, on either side
-			ay = near(r, new(big.Int).Quo(mul(ax, p.rb), p.ra))
-			if r.Chance(1, 3) {
+			ay = new(big.Int).Quo(mul(ax, p.rb), p.ra)
+			if ay.Cmp(s.bal[op.Who][y]) > 0 && r.Chance(9, 10) { // scale both sides into the caller's funds
+				ay = new(big.Int).Quo(s.bal[op.Who][y], bi(int64(1+r.Intn(4))))
+				ax = new(big.Int).Quo(mul(ay, p.ra), p.rb)
+			}
+			if r.Chance(1, 2) {
+				ay = near(r, ay)
+			}
+			if r.Chance(1, 5) {
 				ay = add(ay, new(big.Int).Quo(ay, bi(int64(10+r.Intn(200))))) // a few percent off
 			}
-			if ay.Sign() <= 0 {
-				ay = bi(1)
-			}
+		} else if !exists && r.Chance(8, 10) {
+			// initial price within a few orders of magnitude
+			ay = capTo(new(big.Int).Quo(mul(ax, bi(int64(1+r.Intn(2000)))), bi(int64(1+r.Intn(2000)))), s.bal[op.Who][y])
 		} else {
-			ay = kAmount(r, s.bal[op.Who][y], p.rb)
+			ay = capTo(kAmount(r, s.bal[op.Who][y], p.rb), s.bal[op.Who][y])
+		}
+		if ax.Sign() <= 0 {
+			ax = bi(1)
+		}
+		if ay.Sign() <= 0 {
+			ay = bi(1)
 		}
 		if outs := kPredict(p, "add", ax, ay); outs != nil && outs[0].Sign() > 0 && outs[1].Sign() > 0 {
 			// the slippage the keeper will compute
@@ -704,7 +739,7 @@ func kGenOp(r *Rng, w *kWorld, s *kSnap, trip *kTrip) kOp {
 	case 1:
 		op.Kind = "withdraw"
 		owned := s.share(op.Who, x, y)
-		if owned.Sign() == 0 && r.Chance(3, 4) { // pick a depositor
+		if owned.Sign() == 0 && r.Chance(9, 10) { // pick a depositor
 			for u := 0; u < kNUsers; u++ {
 				if s.share(u, x, y).Sign() > 0 {
 					op.Who = u
@@ -713,7 +748,7 @@ func kGenOp(r *Rng, w *kWorld, s *kSnap, trip *kTrip) kOp {
 			}
 		}
 		var sh *big.Int
-		switch r.Pick(30, 25, 15, 10, 15, 5) {
+		switch r.Pick(35, 35, 6, 8, 13, 3) {
 		case 0:
 			sh = new(big.Int).Set(owned)
 		case 1:
@@ -761,8 +796,20 @@ func kGenOp(r *Rng, w *kWorld, s *kSnap, trip *kTrip) kOp {
 			if ain.Sign() <= 0 {
 				ain = bi(1)
 			}
+		} else if exists && r.Chance(1, 2) {
+			ain = new(big.Int).Quo(mul(rin, bi(int64(1+r.Intn(300)))), bi(100))
 		} else {
 			ain = kAmount(r, s.bal[op.Who][din], rin)
+		}
+		if exists && r.Chance(8, 10) { // enough input for a positive output
+			minIn := mul(add(new(big.Int).Quo(rin, rout), bi(1)), bi(int64(2+r.Intn(4))))
+			if ain.Cmp(minIn) < 0 {
+				ain = minIn
+			}
+		}
+		ain = capTo(ain, s.bal[op.Who][din])
+		if ain.Sign() <= 0 {
+			ain = bi(1)
 		}
 		des := bi(int64(1 + r.Intn(100)))
 		var exact *big.Int
@@ -805,7 +852,7 @@ func kGenOp(r *Rng, w *kWorld, s *kSnap, trip *kTrip) kOp {
 		}
 		_ = rin
 		var bex *big.Int
-		switch r.Pick(30, 30, 20, 15, 5) {
+		switch r.Pick(25, 45, 12, 15, 3) {
 		case 0:
 			bex = bi(int64(1 + r.Intn(20)))
 		case 1:
@@ -825,6 +872,13 @@ func kGenOp(r *Rng, w *kWorld, s *kSnap, trip *kTrip) kOp {
 		bk := "forB"
 		if dout == x {
 			bk = "forA"
+		}
+		if outs := kPredict(p, bk, bex, w.fee); outs != nil && outs[0].Cmp(s.bal[op.Who][din]) > 0 && r.Chance(85, 100) {
+			// keep the required input within the caller's funds
+			bex = new(big.Int).Quo(mul(bex, s.bal[op.Who][din]), mul(outs[0], bi(2)))
+			if bex.Sign() <= 0 {
+				bex = bi(1)
+			}
 		}
 		if outs := kPredict(p, bk, bex, w.fee); outs != nil {
 			net := sub(outs[0], outs[1])
@@ -983,6 +1037,10 @@ func kRun(seed uint64, idx, n int, gen *kGenesis, ops []kOp, cnt *Counters) (h k
 			op = kGenOp(r, w, prev, trip)
 		}
 		cls, err := w.exec(op)
+		if os.Getenv("C07_DEBUG") != "" && cls != ClassOk {
+			x, y := sortPair(op.D1, op.D2)
+			fmt.Fprintf(os.Stderr, "DBG %s %+v pool=%v bal=%v err=%v\n", kErrKind(err), op, prev.pool(x, y), prev.bal[op.Who], err)
+		}
 		after := w.snap()
 		h.Ops = append(h.Ops, op)
 		if cnt != nil {
